@@ -188,6 +188,27 @@ def build():
     one(r"xfr_data\.compatibility_mode\(\)\s*&&\s*q\.qtype\(\)\s*==\s*Rtype::AXFR\s*,", sv, "compatibility mode only for AXFR questions")
     one(r"Rtype::AXFR\s*\|\s*Rtype::IXFR\s+if\s+xfr_data\.diffs\(\)\.is_empty\(\)\s*=>", sv, "fallback arm: no diffs")
     one(r"if\s+query_serial\s*>=\s*soa\.serial\(\)\s*\{", sv, "single SOA reply when the client is up to date")
+    # the decision logic of preprocess: which answer for which request / zone state
+    ppd = fn_body(sv, "preprocess")
+    one(r"let\s+Some\(q\)\s*=\s*Self::get_relevant_question\(msg\)\s*else\s*\{\s*return\s+Ok\(ControlFlow::Continue\(\(\)\)\);\s*\}", ppd, "not an XFR request: Continue")
+    grq = fn_body(sv, "get_relevant_question")
+    one(r"if\s+Opcode::QUERY\s*==\s*msg\.header\(\)\.opcode\(\)\s*&&\s*!msg\.header\(\)\.qr\(\)\s*\{\s*if\s+let\s+Ok\(q\)\s*=\s*msg\.sole_question\(\)\s*\{\s*if\s+matches!\(q\.qtype\(\),\s*Rtype::AXFR\s*\|\s*Rtype::IXFR\)", grq, "get_relevant_question")
+    rcs = strip_comments(read("src/base/iana/rcode.rs"))
+    def rcode(name):
+        return int(one(r"pub\s+const\s+%s\s*:\s*Self\s*=\s*Self\((\d+)\)\s*;" % name, rcs, "Rcode::%s" % name).group(1))
+    m = one(r"if\s+q\.qtype\(\)\s*==\s*Rtype::IXFR\s*&&\s*ixfr_query_serial\.is_none\(\)\s*\{.*?return\s+Err\(OptRcode::(\w+)\);", ppd, "IXFR without SOA")
+    defs.append(("rc_ixfr_no_soa", "N", "%d%%N" % rcode(m.group(1))))
+    for var, tag in (("ParseError\\(err\\)", "rc_prov_parse"), ("UnknownZone", "rc_prov_unknown"),
+                     ("TemporarilyUnavailable", "rc_prov_unavailable"), ("Refused", "rc_prov_refused")):
+        m = one(r"XfrDataProviderError::%s\s*=>\s*\{.*?OptRcode::(\w+)\s*\}" % var, ppd, "provider error %s" % tag)
+        defs.append((tag, "N", "%d%%N" % rcode(m.group(1))))
+    m = one(r"let\s+Ok\(zone_soa_answer\)\s*=\s*read_soa\(&read,\s*q\.qname\(\)\.to_name\(\)\)\.await\s*else\s*\{.*?return\s+Err\(OptRcode::(\w+)\);", ppd, "no SOA at the qname")
+    defs.append(("rc_no_soa", "N", "%d%%N" % rcode(m.group(1))))
+    m = one(r"match\s+q\.qtype\(\)\s*\{\s*Rtype::AXFR\s+if\s+req\.transport_ctx\(\)\.is_udp\(\)\s*=>\s*\{.*?mk_error_response\(msg,\s*OptRcode::(\w+)\).*?\}\s*Rtype::AXFR\s*\|\s*Rtype::IXFR\s+if\s+xfr_data\.diffs\(\)\.is_empty\(\)\s*=>\s*\{.*?Self::respond_to_axfr_query\(.*?\}\s*Rtype::IXFR\s*=>\s*\{.*?Self::respond_to_ixfr_query\(.*?\}\s*_\s*=>\s*\{\s*unreachable!\(\);\s*\}\s*\}", ppd, "preprocess dispatch arms in order")
+    defs.append(("rc_axfr_udp", "N", "%d%%N" % rcode(m.group(1))))
+    ix = fn_body(sv, "respond_to_ixfr_query")
+    one(r"if\s+query_serial\s*>=\s*soa\.serial\(\)\s*\{.*?zone_soa_answer\.to_message\(msg,\s*builder\)", ix, "single SOA when the client is not behind")
+    defs.append(("decision_order_ok", "bool", "true"))
     # the framing SOA and the zone walk use the same ReadableZone snapshot
     pp = fn_body(sv, "preprocess")
     one(r"let\s+read\s*=\s*xfr_data\.zone\(\)\.read\(\);\s*let\s+Ok\(zone_soa_answer\)\s*=\s*read_soa\(&read,\s*q\.qname\(\)\.to_name\(\)\)\.await", pp, "preprocess: SOA read from the snapshot")
